@@ -26,13 +26,13 @@ from models import records as mrec
 NAME = 'M-CON'
 PROPS = ('C01', 'C06', 'C09', 'C17')
 TIERS = {
-    'C01': {'quick': {'runs': 2500, 'wall_cap': 280},
+    'C01': {'quick': {'runs': 5000, 'wall_cap': 280},
+            'thorough': {'runs': 120000, 'wall_cap': 1800}},
+    'C06': {'quick': {'runs': 5000, 'wall_cap': 280},
             'thorough': {'runs': 60000, 'wall_cap': 1800}},
-    'C06': {'quick': {'runs': 2500, 'wall_cap': 280},
+    'C09': {'quick': {'runs': 5000, 'wall_cap': 280},
             'thorough': {'runs': 60000, 'wall_cap': 1800}},
-    'C09': {'quick': {'runs': 2500, 'wall_cap': 280},
-            'thorough': {'runs': 60000, 'wall_cap': 1800}},
-    'C17': {'quick': {'runs': 1500, 'wall_cap': 280},
+    'C17': {'quick': {'runs': 3000, 'wall_cap': 280},
             'thorough': {'runs': 40000, 'wall_cap': 1800}},
 }
 LEVELS = {p: 'exploration' for p in PROPS}
